@@ -138,6 +138,20 @@ def main():
                 nobs += 1
                 verdict.report("C20.obs." + cl, t["build"],
                                {"prog": t["prog"], "schedule": t["schedule"], "options": t["options"], "build": t["build"], "entry": entry})
+        # deep chains (beyond the interpreter's recursion limit) under the dump / profiling options and a clock that
+        # makes every time-based dump fire: options must not make a computation fail that succeeds without them
+        import deepchain
+        deep = []
+        from concurrent.futures import ThreadPoolExecutor
+        optsets = [{"DUMP_SCHEDULER_STATE": True}, {"DUMP_SCHEDULER_STATE": True, "DUMP_NEW_TASKS": True, "COLLECT_PERF_STATS": True},
+                   {"KEEP_DEPENDENCIES": True, "DUMP_COMPUTED": True}]
+        depths = [2000] if tier == "quick" else [2000, 10000]
+        with ThreadPoolExecutor(max_workers=3) as ex:
+            dcs = list(ex.map(lambda o: deepchain.run(builds["pure"], depths, options=o, variants=("plain", "batch", "fail")), optsets))
+        for opts, dc in zip(optsets, dcs):
+            deep += dc["summary"]
+            for b in dc["bad"]:
+                verdict.report("C20.deep", "+".join(sorted(opts)), b)
         opt_traces = [t for t in traces if t["cfg"] >= 0][: (1500 if tier == "quick" else 15000)]
         dv, dst = pipeline.validate_sched(opt_traces, sc)
         ndrift = sum(1 for t in opt_traces if dv[t["id"]] is not None)
@@ -148,7 +162,7 @@ def main():
                         for t in traces if t["cfg"] >= 0][:2],
             "model_programs": len(progs), "model_behaviours": len(behs), "option_configurations": len(cfgs),
             "runs_per_configuration_per_build": per_cfg, "builds": list(builds), "clock_steps_us": CLOCKS,
-            "traces_differing_from_default": nviol_same, "monitor_clause_violations": nobs,
+            "traces_differing_from_default": nviol_same, "deep_chain_runs_under_options": len(deep), "monitor_clause_violations": nobs,
             "monitor_states": st["states"], "drift_under_options": ndrift, "drift_traces_checked": len(opt_traces),
             "evaluations": len(traces), "distinct_nontrivial": len(nt),
             "rule": "one run = (program, steered schedule, option configuration, clock step, build); non-trivial = the run flushed at least one batch",
